@@ -347,6 +347,10 @@ pub fn gen_case2(prop: &str, tier: Tier, _seed: u64, idx: u64, r: &mut Rng) -> O
                 let mut cfg = gen_cfg(r, &o);
                 cfg.width = *r.pick(&[1u32, 16, 320, 640, 1920, 4096, 65_535]);
                 cfg.height = *r.pick(&[1u32, 16, 240, 480, 1080, 2160, 65_535]);
+                if r.chance(1, 2) {
+                    cfg.width = r.any_dim();
+                    cfg.height = r.any_dim();
+                }
                 if let Some(a) = cfg.audio.as_mut() {
                     a.channels = *r.pick(&[1u16, 2, 2, 3, 6, 8, 255]);
                     if !a.is_opus() {
